@@ -61,8 +61,11 @@ TDelete == /\ Step("Delete") /\ set' = set \ {Ev.x} /\ UNCHANGED <<bvars, itemOf
            /\ bad' = Note(bad, First(<< <<Ev.ok = (Ev.x \in set), "C18:Delete on the assembled list: wrong result">> >> \o OpChecks(set')), "BAD")
 TLookup == /\ Step("Lookup") /\ UNCHANGED <<bvars, itemOf, drift, set>>
            /\ bad' = Note(bad, First(<< <<Ev.ok = (Ev.x \in set), "C18:Lookup on the assembled list: wrong result">> >> \o OpChecks(set)), "BAD")
+(* a panic raised by a legal call sequence is behaviour of the real code (driver: guarded()) *)
+TPanic == /\ l <= N /\ Ev.e = "Panic" /\ l' = l + 1 /\ UNCHANGED <<bvars, drift, itemOf, set>>
+          /\ bad' = Note(bad, "C18:the call panicked: " \o Ev.msg \o " (" \o Ev.where \o ")", "BAD")
 TDone == l = N + 1 /\ UNCHANGED tvars
-TNext == TReset \/ TAdd \/ TAssemble \/ TInsert \/ TDelete \/ TLookup \/ TDone
+TNext == TReset \/ TAdd \/ TAssemble \/ TInsert \/ TDelete \/ TLookup \/ TPanic \/ TDone
 TSpec == TInit /\ [][TNext]_tvars
 Good == bad = ""
 =============================================================================
